@@ -182,3 +182,4 @@ class iCVIFuzzyART(FuzzyART):
 
             self.labels_[i] = c
             self.post_step_fit(X)
+        return self
